@@ -61,6 +61,12 @@ CHECKS = {
     "C16": ("exploration", "client/device reference model over setter/apply/refresh histories: 0xB0 bodies captured by the simulated device vs changed-set, advertised id and vendor value encoding; read-back and breeze-exclusivity invariants",
             "All histories of depth <= 2 (quick) / <= 3 (thorough) over a per-profile alphabet for 12 capability profiles (breeze-control vs legacy both/away/breezeless/none, 2-/5-level/no rate select, iECO, swing angles, self clean), plus random histories up to length 20 over all enum values.",
             "The simulated legacy device keeps breeze-away and breezeless mutually exclusive; a setting changed before an intervening refresh may or may not be transmitted.", "DESIGN.md section 2 C16"),
+    "C17": ("exploration", "identity differential on a simulated UDP network: Device objects returned by discover()/discover_single() vs reference-built V2/V3 replies; probe acceptability judged against a private byte-exact copy of the probe",
+            "All 256 type bytes x both hex cases x both versions, boundary ids/ports, reported-IP != source, both listening ports, 1..4 hosts, discover_single, auto_connect against a simulated V2 device.",
+            "Trusts mv/ref/discovery.py (reply layout from the protocol description, probe copy held in /verif).", "DESIGN.md section 2 C17"),
+    "C18": ("exploration", "result-set and no-exception monitor over enumerated arrival interleavings of duplicate / malformed discovery replies on a simulated UDP network; event-loop exception handler watched",
+            "Every distinct interleaving of <= 6 datagrams from <= 4 hosts, 14 bad-reply classes alone / next to good hosts / from every subset of hosts, random larger schedules.",
+            "Each host is consistently good or bad within a run; XML replies carrying a port attribute are outside the statement's bad classes.", "DESIGN.md section 2 C18"),
 }
 
 NOT_YET = "check not built yet in this round (planned in DESIGN.md section 2)"
